@@ -31,7 +31,12 @@ RULE = (
     "cases = PDDL texts printed by vk/gen/pddltext.py (independent of the UP writer) from vk.gen.problem recipes restricted to "
     "the requirement set of check_ai_pddl_requirements: constants section, untyped parameters, several object groups per type, "
     "nested/unary and/or, imply, comparisons in either operand order, = between objects, (when c (and ..)), (forall (when)), "
-    "typed :functions, unary minus, upper-case spellings, comments, :action-costs; plus every (domain, problem) pair under "
+    "typed :functions, unary minus, upper-case spellings, comments, :action-costs, decimal literals without exact binary "
+    "representation (0.1, 0.3, 0.35: a third of the texts, values compared exactly as Fractions), cost metrics whose declared "
+    "costs are all 1 while other actions are free (30% of the cost metrics), quantifier variables named from a small pool "
+    "(?v, ?x, ..) by nesting depth, and (40% of the texts) several planted quantified preconditions / effect conditions / forall "
+    "effects over different types of one hierarchy (a type and sibling subtypes of it) that bind the same variable name and read "
+    "one predicate whose initial extension differs between the types; plus every (domain, problem) pair under "
     "unified_planning/test/pddl. One evaluation = one judged comparison (initial state, goal status, a ground instance in a state "
     "pair, a metric value). distinct_nontrivial = distinct texts accepted by both readers that use >= 1 form the UP writer never "
     "emits and on which the product judged >= 1 applicable, state-changing instance."
@@ -42,8 +47,8 @@ ASSUMPTIONS = [
 ]
 SHARD_TIMEOUT = {"quick": 900, "thorough": 5400}
 BOUNDS = {
-    "quick": dict(n=110, shards=5, depth=2, max_states=8, max_inst=10, file_dirs=("counters", "safe_road", "visit_precedence")),
-    "thorough": dict(n=6000, shards=16, depth=3, max_states=40, max_inst=24),
+    "quick": dict(n=110, shards=5, depth=2, max_states=8, max_inst=10, walks=2, walk_len=6, file_dirs=("counters", "safe_road", "visit_precedence")),
+    "thorough": dict(n=6000, shards=16, depth=3, max_states=40, max_inst=24, walks=3, walk_len=8),
 }
 PDDL_DIR = os.path.join(_env.REPO, "unified_planning", "test", "pddl")
 
@@ -97,6 +102,9 @@ TEXT_PROFILE = dict(
 )
 
 
+P_PLANT_QUANTIFIED = 0.4
+
+
 def gen_text(rng):
     prof = dict(TEXT_PROFILE)
     y = rng.random()
@@ -105,6 +113,11 @@ def gen_text(rng):
     rec = iofrag.closed_world_booleans(rec)
     rec = iofrag.finite_decimals(rec)
     rec = iofrag.nonconstant_goals(rng, rec)
+    if rng.random() < 0.35:
+        # all numeric fluents real, constants such as 0.1, 0.3, 0.35 (finite decimal expansion, not representable in binary)
+        rec = iofrag.decimalize(rng, rec, p_bounds=0.0, finite=True)
+        if rng.random() < 0.7:
+            rec = iofrag.plant_decimal_counter(rng, rec)
     if rng.random() < 0.5:
         rec = iofrag.plant_nested_numeric(rng, rec, minus=True)
     # negative literals are not readable by the third-party parser: initial values are made non-negative
@@ -115,6 +128,11 @@ def gen_text(rng):
             f["default"] = ["i", abs(int(d[1]))]
         elif d is not None and d[0] == "r":
             f["default"] = ["r", str(abs(__import__("fractions").Fraction(d[1])))]
+    planted = 0
+    if rng.random() < P_PLANT_QUANTIFIED:
+        # several quantified conditions / forall effects per domain over different types of one hierarchy (sibling subtypes,
+        # supertype / subtype), all binding the same variable name
+        rec, planted = pddltext.plant_quantified_conditions(rng, rec)
     untyped = rng.random() < 0.06
     clean = rng.random() < 0.85
     if clean:
@@ -123,7 +141,17 @@ def gen_text(rng):
         # a goal with or / imply / quantifiers is never accepted by the third-party parser (outside the common fragment)
         rec = iofrag.simple_goals(rec)
     rec = iofrag.complete_action_costs(rec)
+    m = rec.get("metric")
+    if m and m["kind"] == "costs" and rng.random() < 0.3:
+        # the border between the two cost metrics: every declared cost is the constant 1, the other actions are free
+        # (plan length = every action costs 1; action costs with default 0 = only the declared ones do)
+        m["costs"] = {a: ["i", 1] for a in m["costs"]}
+        m["default"] = ["i", 0]
+        if len(m["costs"]) == len(rec["actions"]) and len(m["costs"]) > 1 and rng.random() < 0.7:
+            del m["costs"][sorted(m["costs"])[rng.randrange(len(m["costs"]))]]
     d, p, names, forms = pddltext.print_pddl(rng, rec, untyped, allow_empty_precondition=not clean)
+    if m and m["kind"] == "costs" and m["costs"] and all(c == ["i", 1] for c in m["costs"].values()) and len(m["costs"]) < len(rec["actions"]):
+        forms.add("unit-costs-with-free-actions")
     return rec, d, p, forms
 
 
@@ -173,7 +201,7 @@ def compare(dom, prob, forms, wbase, b, res):
         res.count("form:" + f)
     A, B = outs["up"].value, outs["ai"].value
     try:
-        st, corr = bisim.bisimulate(A, B, bisim.NameMap(), depth=b["depth"], max_states=b["max_states"], max_inst=b["max_inst"])
+        st, corr = bisim.bisimulate(A, B, bisim.NameMap(), depth=b["depth"], max_states=b["max_states"], max_inst=b["max_inst"], walks=b.get("walks", 0), walk_len=b.get("walk_len", 0))
     except bisim.Mismatch as m:
         res.mon()
         res.case()
@@ -201,6 +229,8 @@ def compare(dom, prob, forms, wbase, b, res):
         if n:
             res.count("metrics_compared")
             res.count("metric_evaluations", n)
+            if "unit-costs-with-free-actions" in forms:
+                res.count("metrics_compared:unit-costs-with-free-actions")
     except bisim.Mismatch as m:
         res.mon()
         res.case()
@@ -210,6 +240,8 @@ def compare(dom, prob, forms, wbase, b, res):
         res.count("skipped_unsupported_by_oracle")
     if st.nontrivial:
         res.count("bisimulated_with_changes")
+        if st.counters.get("state-pairs-with-non-dyadic-decimal-values"):
+            res.count("class:non-dyadic-decimal-values-in-states")
         if forms & WRITER_NEVER:
             res.nt(h([dom, prob]))
         for f in forms:
@@ -273,8 +305,13 @@ REQUIRED = {
     "judged-form:when-and": 4,
     "judged-form:forall-when": 2,
     "judged-form:action-costs": 3,
+    "metrics_compared:unit-costs-with-free-actions": 1,  # every declared cost is 1, some action is free: action costs, not plan length
     "judged-form:unary-minus": 6,
     "judged-form:unary-and-or": 1,
+    "judged-form:shared-variable-name:conditions": 6,  # one variable name bound with different types by two quantified conditions
+    "judged-form:shared-variable-name:effects": 4,  # ... by a forall effect and another binder
+    "class:non-dyadic-decimal-values-in-states": 4,  # texts with literals such as 0.1 / 0.35 whose values reached judged states
+    "walk-steps-beyond-depth": 20,  # lock-step walk steps past the breadth-first depth (accumulated effects)
     "feature:conditional": 30,
     "feature:forall": 10,
     "metrics_compared": 10,
